@@ -12,7 +12,7 @@
 //	  all of these as "file:hand=..."; 20 shapes (+3 with CIDv0 links) with a leading-empty child as
 //	  "file:leading-empty=..." (known finding: such a child is never requested; nothing else can
 //	  fail under that name);
-//	HAMTs: fanouts {8,256} | {8,16,64,256,1024} over 7 colliding + 150 | 2000 random names;
+//	HAMTs: fanouts {8,32,256,1024} | all of 8..1024 over 7 colliding + 150 | 2000 random names;
 //	  operations: full MapIterator pass, Length(), the preload reifier;
 //	paths: root(plain)/h(HAMT)/<name> resolved with UnixFSPathSelector for every 5th | every name:
 //	  first requests == [h, shards on the name's hash path..., target] in that order.
@@ -223,7 +223,7 @@ func TestBounded(t *testing.T) {
 	builder.DefaultLinksPerBlock = 2
 	rng := vp.Rng(20)
 	names := vp.Dedup(append(append(vp.Colliding(4, 21, rng), vp.Colliding(3, 12, rng)...), vp.Names(vp.Pick(150, 2000), rng)...))
-	for _, fanout := range vp.Pick([]int{8, 256}, []int{8, 16, 64, 256, 1024}) {
+	for _, fanout := range vp.Pick([]int{8, 32, 256, 1024}, []int{8, 16, 32, 64, 128, 256, 512, 1024}) {
 		st := vp.NewStore()
 		ls := st.LS()
 		fl, fsz, err := builder.BuildUnixFSFile(bytes.NewReader(vp.Content(11, 1)), "size-4", ls)
